@@ -21,29 +21,29 @@ open Obao.ACL Obao.ACLSpec Obao.ACLProofs
 
 /-- the full statement: for every attachable policy list the implementation computes the documented decision -/
 def acl_impl_eq_spec_full : Prop :=
-  ∀ (ps : List (Option Policy)) (a : ACL) (req : Req) (cc : Bool),
-    newACL ps = .ok a → allowOperation a req cc = specAllow ps req cc
+  ∀ (now : Int) (ps : List (Option Policy)) (a : ACL) (req : Req) (cc : Bool),
+    newACL now ps = .ok a → allowOperation a req cc = specAllow now ps req cc
 
 /-- **refinement.** For well-formed stanzas (see above), `AllowOperation (NewACL ps) req` is the documented decision
-`specAllow ps req`: default deny, exact over glob/wildcard, the five-criteria priority, per-pattern union with deny
+`specAllow now ps req`: default deny, exact over glob/wildcard, the five-criteria priority, per-pattern union with deny
 winning, parameter/TTL/pagination restrictions; the same with `capCheckOnly`. -/
-theorem acl_impl_eq_spec_partial (ps : List (Option Policy)) (a : ACL) (req : Req) (cc : Bool)
-    (h : newACL ps = .ok a) (hwf : wfRules (rulesOf ps) = true) :
-    allowOperation a req cc = specAllow ps req cc :=
-  acl_refines_spec ps a h hwf req cc
+theorem acl_impl_eq_spec_partial (now : Int) (ps : List (Option Policy)) (a : ACL) (req : Req) (cc : Bool)
+    (h : newACL now ps = .ok a) (hwf : wfRules (rulesOf now ps) = true) :
+    allowOperation a req cc = specAllow now ps req cc :=
+  acl_refines_spec now ps a h hwf req cc
 
 /-- `NewACL` fails exactly when `root` is attached together with anything else (nil entries count) -/
-theorem newacl_ok_iff_attachable (ps : List (Option Policy)) :
-    (∃ a, newACL ps = .ok a) ↔ attachable ps = true := by
+theorem newacl_ok_iff_attachable (now : Int) (ps : List (Option Policy)) :
+    (∃ a, newACL now ps = .ok a) ↔ attachable ps = true := by
   rw [newACL_eq]
   cases attachable ps <;> simp
 
 /-- the reported capability list is the documented one as well -/
-theorem capabilities_eq_spec (ps : List (Option Policy)) (a : ACL) (path : Path)
-    (h : newACL ps = .ok a) (hwf : wfRules (rulesOf ps) = true) :
-    capabilities a path = specCapabilities ps path := by
+theorem capabilities_eq_spec (now : Int) (ps : List (Option Policy)) (a : ACL) (path : Path)
+    (h : newACL now ps = .ok a) (hwf : wfRules (rulesOf now ps) = true) :
+    capabilities a path = specCapabilities now ps path := by
   unfold capabilities specCapabilities
-  rw [acl_refines_spec ps a h hwf]
+  rw [acl_refines_spec now ps a h hwf]
 
 /-- **what `parsePaths` accepts is well-formed** — no side condition (F19 and F21 repaired): `deny` stands alone, the
 parameter names are distinct, the wrapping-TTL bounds are not negative -/
@@ -51,16 +51,16 @@ theorem parsed_stanza_wf (r : SrcRule) (pr : PathRule) (h : parseRule r = .ok pr
   (wfPerms_iff _).mpr (parseRule_wf r pr h)
 
 /-- hence every list of policies produced by the parser satisfies the hypothesis of the theorems below -/
-theorem parsed_policies_wf (ps : List (Option Policy)) (h : ∀ p, some p ∈ ps → Parsed p) :
-    wfRules (rulesOf ps) = true :=
-  wfRules_of_parsed ps h
+theorem parsed_policies_wf (now : Int) (ps : List (Option Policy)) (h : ∀ p, some p ∈ ps → Parsed p) :
+    wfRules (rulesOf now ps) = true :=
+  wfRules_of_parsed now ps h
 
 /-- **refinement for parsed policies, no side condition**: whatever policy texts are attached, `AllowOperation`
 computes the documented decision -/
-theorem acl_impl_eq_spec_parsed (ps : List (Option Policy)) (a : ACL) (req : Req) (cc : Bool)
-    (hparsed : ∀ p, some p ∈ ps → Parsed p) (h : newACL ps = .ok a) :
-    allowOperation a req cc = specAllow ps req cc :=
-  acl_refines_spec ps a h (wfRules_of_parsed ps hparsed) req cc
+theorem acl_impl_eq_spec_parsed (now : Int) (ps : List (Option Policy)) (a : ACL) (req : Req) (cc : Bool)
+    (hparsed : ∀ p, some p ∈ ps → Parsed p) (h : newACL now ps = .ok a) :
+    allowOperation a req cc = specAllow now ps req cc :=
+  acl_refines_spec now ps a h (wfRules_of_parsed now ps hparsed) req cc
 
 /-- **the parse does not depend on Go's map iteration order** (full since the repair of F21). `parsePaths` ranges over
 the decoded `allowed_parameters` / `denied_parameters` objects (Go maps) while lower-casing the names. For every
@@ -85,47 +85,47 @@ example : (parseRule { path := bs "x", caps := ["deny"], maxTTL := some (-1) }).
 /-! ### order independence -/
 
 def order_independent_full : Prop :=
-  ∀ (ps ps' : List (Option Policy)) (a a' : ACL) (req : Req) (cc : Bool),
-    ps.Perm ps' → newACL ps = .ok a → newACL ps' = .ok a' → allowOperation a req cc = allowOperation a' req cc
+  ∀ (now : Int) (ps ps' : List (Option Policy)) (a a' : ACL) (req : Req) (cc : Bool),
+    ps.Perm ps' → newACL now ps = .ok a → newACL now ps' = .ok a' → allowOperation a req cc = allowOperation a' req cc
 
 /-- **order independence.** For every permutation of the attached policies the decision (allowed, root privileges,
 capability bitmap, effective `limit`) is the same. -/
-theorem order_independent_partial (ps ps' : List (Option Policy)) (a a' : ACL) (req : Req) (cc : Bool)
-    (hp : ps.Perm ps') (hwf : wfRules (rulesOf ps) = true) (h : newACL ps = .ok a) (h' : newACL ps' = .ok a') :
+theorem order_independent_partial (now : Int) (ps ps' : List (Option Policy)) (a a' : ACL) (req : Req) (cc : Bool)
+    (hp : ps.Perm ps') (hwf : wfRules (rulesOf now ps) = true) (h : newACL now ps = .ok a) (h' : newACL now ps' = .ok a') :
     allowOperation a req cc = allowOperation a' req cc := by
-  have hwf' : wfRules (rulesOf ps') = true := by rw [← wfRules_perm (rulesOf_perm hp)]; exact hwf
-  rw [acl_refines_spec ps a h hwf, acl_refines_spec ps' a' h' hwf']
+  have hwf' : wfRules (rulesOf now ps') = true := by rw [← wfRules_perm (rulesOf_perm now hp)]; exact hwf
+  rw [acl_refines_spec now ps a h hwf, acl_refines_spec now ps' a' h' hwf']
   unfold specAllow
-  rw [hasRoot_perm hp, specDecide_perm (rulesOf_perm hp)]
+  rw [hasRoot_perm hp, specDecide_perm (rulesOf_perm now hp)]
 
 /-- **order independence for parsed policies, no side condition** -/
-theorem order_independent_parsed (ps ps' : List (Option Policy)) (a a' : ACL) (req : Req) (cc : Bool)
-    (hp : ps.Perm ps') (hparsed : ∀ p, some p ∈ ps → Parsed p) (h : newACL ps = .ok a) (h' : newACL ps' = .ok a') :
+theorem order_independent_parsed (now : Int) (ps ps' : List (Option Policy)) (a a' : ACL) (req : Req) (cc : Bool)
+    (hp : ps.Perm ps') (hparsed : ∀ p, some p ∈ ps → Parsed p) (h : newACL now ps = .ok a) (h' : newACL now ps' = .ok a') :
     allowOperation a req cc = allowOperation a' req cc :=
-  order_independent_partial ps ps' a a' req cc hp (wfRules_of_parsed ps hparsed) h h'
+  order_independent_partial now ps ps' a a' req cc hp (wfRules_of_parsed now ps hparsed) h h'
 
 /-- stronger: the decision depends only on the multiset of stanzas — also invariant under reordering the paths
 inside a policy and under moving stanzas between (non-root) policies -/
-theorem order_independent_stanzas (ps ps' : List (Option Policy)) (a a' : ACL) (req : Req) (cc : Bool)
-    (hp : (rulesOf ps).Perm (rulesOf ps')) (hr : hasRoot ps = hasRoot ps') (hwf : wfRules (rulesOf ps) = true)
-    (h : newACL ps = .ok a) (h' : newACL ps' = .ok a') :
+theorem order_independent_stanzas (now : Int) (ps ps' : List (Option Policy)) (a a' : ACL) (req : Req) (cc : Bool)
+    (hp : (rulesOf now ps).Perm (rulesOf now ps')) (hr : hasRoot ps = hasRoot ps') (hwf : wfRules (rulesOf now ps) = true)
+    (h : newACL now ps = .ok a) (h' : newACL now ps' = .ok a') :
     allowOperation a req cc = allowOperation a' req cc := by
-  have hwf' : wfRules (rulesOf ps') = true := by rw [← wfRules_perm hp]; exact hwf
-  rw [acl_refines_spec ps a h hwf, acl_refines_spec ps' a' h' hwf']
+  have hwf' : wfRules (rulesOf now ps') = true := by rw [← wfRules_perm hp]; exact hwf
+  rw [acl_refines_spec now ps a h hwf, acl_refines_spec now ps' a' h' hwf']
   unfold specAllow
   rw [hr, specDecide_perm hp]
 
 /-- whether the policies can be attached at all does not depend on the order either (no hypothesis) -/
-theorem attach_order_independent (ps ps' : List (Option Policy)) (hp : ps.Perm ps') :
-    (∃ a, newACL ps = .ok a) ↔ (∃ a', newACL ps' = .ok a') := by
+theorem attach_order_independent (now : Int) (ps ps' : List (Option Policy)) (hp : ps.Perm ps') :
+    (∃ a, newACL now ps = .ok a) ↔ (∃ a', newACL now ps' = .ok a') := by
   rw [newacl_ok_iff_attachable, newacl_ok_iff_attachable, attachable_perm hp]
 
 /-- the capability list is order independent -/
-theorem capabilities_order_independent (ps ps' : List (Option Policy)) (a a' : ACL) (path : Path)
-    (hp : ps.Perm ps') (hwf : wfRules (rulesOf ps) = true) (h : newACL ps = .ok a) (h' : newACL ps' = .ok a') :
+theorem capabilities_order_independent (now : Int) (ps ps' : List (Option Policy)) (a a' : ACL) (path : Path)
+    (hp : ps.Perm ps') (hwf : wfRules (rulesOf now ps) = true) (h : newACL now ps = .ok a) (h' : newACL now ps' = .ok a') :
     capabilities a path = capabilities a' path := by
   unfold capabilities
-  rw [order_independent_partial ps ps' a a' _ true hp hwf h h']
+  rw [order_independent_partial now ps ps' a a' _ true hp hwf h h']
 
 /-- hand-built policy values (NOT parser output any more: `parsePaths` refuses the negative bound since the repair of
 F19) for the same path, one with `MaxWrappingTTL = -1`, the other `= 5` -/
@@ -142,55 +142,119 @@ it then blocks the merge of the positive bound. No policy text reaches this any 
 the statement is kept because callers inside the Go code base can construct `Policy` values without the parser. -/
 theorem order_independent_cex : ¬ order_independent_full := by
   intro h
-  have := h [some polNeg, some polFive] [some polFive, some polNeg] aclNegFive aclFiveNeg
+  have := h 0 [some polNeg, some polFive] [some polFive, some polNeg] aclNegFive aclFiveNeg
     { path := bs "x", op := .read } false (List.Perm.swap _ _ _) (by rfl) (by rfl)
   exact absurd this (by decide)
 
 theorem acl_impl_eq_spec_cex : ¬ acl_impl_eq_spec_full := by
   intro h
-  have := h [some polNeg, some polFive] aclNegFive { path := bs "x", op := .read } false (by rfl)
+  have := h 0 [some polNeg, some polFive] aclNegFive { path := bs "x", op := .read } false (by rfl)
   exact absurd this (by decide)
+
+/-! ### stanza expiration
+
+Policies are parsed once and cached; `parsePaths` only drops stanzas that are already expired at parse time. What
+enforces a stanza's `expiration` afterwards is the test `NewACL` makes for every stanza each time an ACL is built.
+All theorems of this file quantify over the instant `now` at which the ACL is built. -/
+
+/-- **an expired stanza grants (and denies) nothing.** For every policy list and every instant `now`: removing all
+stanzas that are expired at `now` from the policies changes nothing — `NewACL` builds the same ACL, hence every
+decision and capability list is the same. No well-formedness hypothesis. -/
+theorem expired_stanza_grants_nothing (now : Int) (ps : List (Option Policy)) :
+    newACL now (ps.map (dropExpired now)) = newACL now ps :=
+  newACL_dropExpired now ps
+
+/-- the same on the side of the semantics -/
+theorem expired_stanza_grants_nothing_spec (now : Int) (ps : List (Option Policy)) (req : Req) (cc : Bool) :
+    specAllow now (ps.map (dropExpired now)) req cc = specAllow now ps req cc := by
+  unfold specAllow
+  rw [hasRoot_dropExpired, rulesOf_dropExpired]
+
+/-- a stanza counts exactly when it has no expiration or `now` is not after it (`time.Now().After(exp)` is strict) -/
+theorem stanza_counts_iff (now : Int) (r : PathRule) :
+    liveAt now r = true ↔ r.expiration = none ∨ ∃ t, r.expiration = some t ∧ now ≤ t := by
+  unfold liveAt expiredAt
+  cases r.expiration with
+  | none => simp
+  | some t => simp
+
+/-- as time passes the set of stanzas that count only shrinks -/
+theorem live_stanzas_shrink (now now' : Int) (h : now ≤ now') (ps : List (Option Policy)) (r : PathRule)
+    (hr : r ∈ rulesOf now' ps) : r ∈ rulesOf now ps :=
+  mem_rulesOf_mono now now' h ps r hr
+
+def expiry_monotone_full : Prop :=
+  ∀ (now now' : Int) (ps : List (Option Policy)) (a a' : ACL) (req : Req), now ≤ now' →
+    newACL now ps = .ok a → newACL now' ps = .ok a' →
+    (allowOperation a' req false).allowed = true → (allowOperation a req false).allowed = true
+
+/-- `secret/* = read` for ever, `secret/x = deny` until the instant 10 -/
+def polExpiringDeny : Policy := { name := "t", paths := [
+  { path := bs "secret/", isPrefix := true, hasSW := false, perms := { caps := 4 } },
+  { path := bs "secret/x", isPrefix := false, hasSW := false, perms := { caps := denyBits }, expiration := some 10 }] }
+
+/-- **"a later instant never turns a deny into an allow" is false**, by design of the semantics: when the stanza that
+expires is a `deny` (or any more specific, more restrictive stanza) the request falls through to a lower-priority
+pattern that allows it. Expiry removes stanzas, it does not remove permissions. -/
+theorem expiry_monotone_cex : ¬ expiry_monotone_full := by
+  intro h
+  have := h 5 11 [some polExpiringDeny]
+    { exact := [(bs "secret/x", { caps := denyBits })], pref := [(bs "secret/", { caps := 4 })] }
+    { pref := [(bs "secret/", { caps := 4 })] }
+    { path := bs "secret/x", op := .read } (by decide) (by rfl) (by rfl) (by decide)
+  exact absurd this (by decide)
+
+/-- a granting stanza stops granting at the first instant after its expiration, and grants up to and including it -/
+def polExpiringGrant : Policy := { name := "g", paths := [
+  { path := bs "kv/a", isPrefix := false, hasSW := false, perms := { caps := 4 + 64 }, expiration := some 10 }] }
+example : (specAllow 10 [some polExpiringGrant] { path := bs "kv/a", op := .read } false).allowed = true := by decide
+example : (specAllow 11 [some polExpiringGrant] { path := bs "kv/a", op := .read } false) = { } := by decide
+example : rulesOf 11 [some polExpiringGrant] = [] := by decide
+/-- `parsePaths` skips a stanza that is expired at parse time before looking at anything else in it -/
+example : parseRules 100 [{ path := bs "a/+*", caps := ["bogus"], expiration := some 99 },
+    { path := bs "b", caps := ["read"], expiration := some 100 }] =
+    .ok [{ path := bs "b", isPrefix := false, hasSW := false, perms := { caps := 4 }, expiration := some 100 }] := by rfl
 
 /-! ### corollaries named in the property -/
 
 /-- **default deny.** If no stanza of the attached policies applies to the request (matches its path, or — for
 list/scan — the path without its trailing slash), nothing is granted: not allowed, no root privileges, empty
 capability bitmap. No well-formedness hypothesis. -/
-theorem default_deny (ps : List (Option Policy)) (a : ACL) (req : Req) (cc : Bool) (h : newACL ps = .ok a)
+theorem default_deny (now : Int) (ps : List (Option Policy)) (a : ACL) (req : Req) (cc : Bool) (h : newACL now ps = .ok a)
     (hroot : hasRoot ps = false) (hhelp : req.op ≠ .help)
-    (hnone : ∀ r ∈ rulesOf ps, stanzaApplies (dropSlashes req.path) req.op r = false) :
+    (hnone : ∀ r ∈ rulesOf now ps, stanzaApplies (dropSlashes req.path) req.op r = false) :
     allowOperation a req cc = { limit := limitOf req.data } := by
   rw [newACL_eq] at h
   split at h
   · simp only [Except.ok.injEq] at h
     subst h
     unfold allowOperation
-    have hb := built_foldl (rulesOf ps) (hasRoot ps)
+    have hb := built_foldl (rulesOf now ps) (hasRoot ps)
     rw [findPerms_eq hb, specFind_none_of_none_applies _ _ _ hnone]
     simp [setRoot, hroot, hhelp]
   · exact absurd h (by simp)
 
 /-- **exact beats glob/wildcard.** If some stanza is written for exactly the request path, only the stanzas for
 that exact pattern decide, whatever globs and wildcards also match. -/
-theorem exact_beats_glob (ps : List (Option Policy)) (a : ACL) (req : Req) (cc : Bool) (h : newACL ps = .ok a)
-    (hwf : wfRules (rulesOf ps) = true) (hroot : hasRoot ps = false) (hhelp : req.op ≠ .help)
-    (hex : hasExact (rulesOf ps) (dropSlashes req.path) = true) :
-    allowOperation a req cc = specCheck (permsFor (rulesOf ps) .exact (dropSlashes req.path)) req cc := by
-  rw [acl_refines_spec ps a h hwf]
+theorem exact_beats_glob (now : Int) (ps : List (Option Policy)) (a : ACL) (req : Req) (cc : Bool) (h : newACL now ps = .ok a)
+    (hwf : wfRules (rulesOf now ps) = true) (hroot : hasRoot ps = false) (hhelp : req.op ≠ .help)
+    (hex : hasExact (rulesOf now ps) (dropSlashes req.path) = true) :
+    allowOperation a req cc = specCheck (permsFor (rulesOf now ps) .exact (dropSlashes req.path)) req cc := by
+  rw [acl_refines_spec now ps a h hwf]
   unfold specAllow specDecide specFind
   simp [hroot, hhelp, hex]
 
 /-- **deny wins within a pattern.** If any stanza for the deciding pattern says `deny`, no operation is allowed,
 with any parameters, and the capability bitmap is exactly `deny`. -/
-theorem deny_wins_within_pattern (ps : List (Option Policy)) (a : ACL) (req : Req) (kind : Kind) (k : Path)
-    (h : newACL ps = .ok a) (hwf : wfRules (rulesOf ps) = true) (hroot : hasRoot ps = false) (hhelp : req.op ≠ .help)
-    (hfind : specFind (rulesOf ps) (dropSlashes req.path) req.op = some (kind, k))
-    (hdeny : anyDeny (permsFor (rulesOf ps) kind k) = true) :
+theorem deny_wins_within_pattern (now : Int) (ps : List (Option Policy)) (a : ACL) (req : Req) (kind : Kind) (k : Path)
+    (h : newACL now ps = .ok a) (hwf : wfRules (rulesOf now ps) = true) (hroot : hasRoot ps = false) (hhelp : req.op ≠ .help)
+    (hfind : specFind (rulesOf now ps) (dropSlashes req.path) req.op = some (kind, k))
+    (hdeny : anyDeny (permsFor (rulesOf now ps) kind k) = true) :
     (allowOperation a req false).allowed = false ∧ (allowOperation a req true).caps = denyBits := by
-  rw [acl_refines_spec ps a h hwf, acl_refines_spec ps a h hwf]
+  rw [acl_refines_spec now ps a h hwf, acl_refines_spec now ps a h hwf]
   unfold specAllow specDecide
   simp only [hroot, Bool.false_eq_true, if_false, hhelp, hfind]
-  have hc : specCaps (permsFor (rulesOf ps) kind k) = denyBits := by unfold specCaps; simp [hdeny]
+  have hc : specCaps (permsFor (rulesOf now ps) kind k) = denyBits := by unfold specCaps; simp [hdeny]
   unfold specCheck
   rw [hc]
   constructor
@@ -203,12 +267,12 @@ theorem deny_wins_within_pattern (ps : List (Option Policy)) (a : ACL) (req : Re
 
 /-- **capabilities are unioned within a pattern.** Without a `deny` stanza the deciding pattern carries capability
 `i` iff some stanza written for that pattern (in any attached policy) grants it. -/
-theorem caps_union_within_pattern (ps : List (Option Policy)) (a : ACL) (req : Req) (kind : Kind) (k : Path) (i : Nat)
-    (h : newACL ps = .ok a) (hwf : wfRules (rulesOf ps) = true) (hroot : hasRoot ps = false) (hhelp : req.op ≠ .help)
-    (hfind : specFind (rulesOf ps) (dropSlashes req.path) req.op = some (kind, k))
-    (hdeny : anyDeny (permsFor (rulesOf ps) kind k) = false) :
-    (allowOperation a req true).caps.testBit i = (permsFor (rulesOf ps) kind k).any fun p => p.caps.testBit i := by
-  rw [acl_refines_spec ps a h hwf]
+theorem caps_union_within_pattern (now : Int) (ps : List (Option Policy)) (a : ACL) (req : Req) (kind : Kind) (k : Path) (i : Nat)
+    (h : newACL now ps = .ok a) (hwf : wfRules (rulesOf now ps) = true) (hroot : hasRoot ps = false) (hhelp : req.op ≠ .help)
+    (hfind : specFind (rulesOf now ps) (dropSlashes req.path) req.op = some (kind, k))
+    (hdeny : anyDeny (permsFor (rulesOf now ps) kind k) = false) :
+    (allowOperation a req true).caps.testBit i = (permsFor (rulesOf now ps) kind k).any fun p => p.caps.testBit i := by
+  rw [acl_refines_spec now ps a h hwf]
   unfold specAllow specDecide
   simp only [hroot, Bool.false_eq_true, if_false, hhelp, hfind]
   unfold specCheck checkCore
@@ -220,12 +284,12 @@ theorem caps_union_within_pattern (ps : List (Option Policy)) (a : ACL) (req : R
 /-- **constraints only restrict.** Removing every allowed/denied/required parameter list, wrapping-TTL bound and
 pagination limit from all stanzas never turns an allowed request into a denied one; equivalently, adding such
 constraints never turns a deny into an allow. -/
-theorem params_restrict_only (ps : List (Option Policy)) (a a0 : ACL) (req : Req)
-    (h : newACL ps = .ok a) (h0 : newACL (ps.map stripPolicy) = .ok a0) (hwf : wfRules (rulesOf ps) = true)
+theorem params_restrict_only (now : Int) (ps : List (Option Policy)) (a a0 : ACL) (req : Req)
+    (h : newACL now ps = .ok a) (h0 : newACL now (ps.map stripPolicy) = .ok a0) (hwf : wfRules (rulesOf now ps) = true)
     (hal : (allowOperation a req false).allowed = true) : (allowOperation a0 req false).allowed = true := by
-  have hwf0 : wfRules (rulesOf (ps.map stripPolicy)) = true := by rw [rulesOf_strip]; exact wfRules_strip _ hwf
-  rw [acl_refines_spec ps a h hwf] at hal
-  rw [acl_refines_spec _ a0 h0 hwf0]
+  have hwf0 : wfRules (rulesOf now (ps.map stripPolicy)) = true := by rw [rulesOf_strip]; exact wfRules_strip _ hwf
+  rw [acl_refines_spec now ps a h hwf] at hal
+  rw [acl_refines_spec now _ a0 h0 hwf0]
   unfold specAllow at hal ⊢
   rw [hasRoot_strip, rulesOf_strip]
   cases hr : hasRoot ps with
@@ -238,8 +302,8 @@ theorem params_restrict_only (ps : List (Option Policy)) (a a0 : ACL) (req : Req
       exact specDecide_strip_mono _ req hal
 
 /-- the stripped policies are attachable whenever the original ones are (so `a0` above exists) -/
-theorem strip_attachable (ps : List (Option Policy)) (a : ACL) (h : newACL ps = .ok a) :
-    ∃ a0, newACL (ps.map stripPolicy) = .ok a0 := by
+theorem strip_attachable (now : Int) (ps : List (Option Policy)) (a : ACL) (h : newACL now ps = .ok a) :
+    ∃ a0, newACL now (ps.map stripPolicy) = .ok a0 := by
   rw [newacl_ok_iff_attachable, attachable_strip, ← newacl_ok_iff_attachable]
   exact ⟨a, h⟩
 
@@ -334,20 +398,20 @@ theorem descriptor_identifies_pattern (path : Path) (kind kind' : Kind) (k k' : 
 /-! ### the capability list -/
 
 def capabilities_agree_full : Prop :=
-  ∀ (ps : List (Option Policy)) (a : ACL) (req : Req) (i : Nat), newACL ps = .ok a → wfRules (rulesOf ps) = true →
+  ∀ (now : Int) (ps : List (Option Policy)) (a : ACL) (req : Req) (i : Nat), newACL now ps = .ok a → wfRules (rulesOf now ps) = true →
     hasRoot ps = false → opCap req.op = some i → (allowOperation a req false).allowed = true →
     capName i ∈ capabilities a req.path
 
 /-- **capabilities agree.** For a request path without a trailing slash: whenever an operation is permitted (with any
 parameters and wrap TTL), the capability for that operation is in the list `Capabilities` reports for the path. -/
-theorem capabilities_agree_partial (ps : List (Option Policy)) (a : ACL) (req : Req) (i : Nat)
-    (h : newACL ps = .ok a) (hwf : wfRules (rulesOf ps) = true) (hroot : hasRoot ps = false)
+theorem capabilities_agree_partial (now : Int) (ps : List (Option Policy)) (a : ACL) (req : Req) (i : Nat)
+    (h : newACL now ps = .ok a) (hwf : wfRules (rulesOf now ps) = true) (hroot : hasRoot ps = false)
     (hns : ¬ (dropSlashes req.path).getLast? = some slash) (hop : opCap req.op = some i)
     (hal : (allowOperation a req false).allowed = true) : capName i ∈ capabilities a req.path := by
   have hhelp : req.op ≠ .help := by intro hc; rw [hc] at hop; simp [opCap] at hop
-  rw [acl_refines_spec ps a h hwf] at hal
+  rw [acl_refines_spec now ps a h hwf] at hal
   unfold capabilities
-  rw [acl_refines_spec ps a h hwf]
+  rw [acl_refines_spec now ps a h hwf]
   unfold specAllow at hal ⊢
   simp only [hroot, Bool.false_eq_true, if_false, hhelp] at hal
   have hl : ¬ (Op.list = Op.help) := by decide
@@ -355,20 +419,20 @@ theorem capabilities_agree_partial (ps : List (Option Policy)) (a : ACL) (req : 
   exact spec_caps_agree _ req i hns hop hal
 
 /-- consequently: `deny` reported ⇒ nothing is permitted on that path -/
-theorem deny_reported_nothing_permitted (ps : List (Option Policy)) (a : ACL) (req : Req) (i : Nat)
-    (h : newACL ps = .ok a) (hwf : wfRules (rulesOf ps) = true) (hroot : hasRoot ps = false)
+theorem deny_reported_nothing_permitted (now : Int) (ps : List (Option Policy)) (a : ACL) (req : Req) (i : Nat)
+    (h : newACL now ps = .ok a) (hwf : wfRules (rulesOf now ps) = true) (hroot : hasRoot ps = false)
     (hns : ¬ (dropSlashes req.path).getLast? = some slash) (hop : opCap req.op = some i)
     (hdeny : capabilities a req.path = ["deny"]) : (allowOperation a req false).allowed = false := by
   cases hal : (allowOperation a req false).allowed with
   | false => rfl
   | true =>
-    have := capabilities_agree_partial ps a req i h hwf hroot hns hop hal
+    have := capabilities_agree_partial now ps a req i h hwf hroot hns hop hal
     rw [hdeny] at this
     simp only [List.mem_singleton] at this
     cases hr : req.op <;> rw [hr] at hop <;> simp [opCap] at hop <;> subst hop <;> exact absurd this (by decide)
 
 /-- `root` is reported iff the root policy is attached, and then everything is permitted -/
-theorem root_reported_iff (ps : List (Option Policy)) (a : ACL) (req : Req) (h : newACL ps = .ok a) :
+theorem root_reported_iff (now : Int) (ps : List (Option Policy)) (a : ACL) (req : Req) (h : newACL now ps = .ok a) :
     (capabilities a req.path = ["root"] ↔ hasRoot ps = true) ∧
     (hasRoot ps = true → (allowOperation a req false).allowed = true ∧ (allowOperation a req false).rootPrivs = true) := by
   rw [newACL_eq] at h
@@ -413,7 +477,7 @@ evaluates a LIST request, takes the list fallback to the exact pattern `foo` and
 is decided by `foo/*` and permitted -/
 theorem capabilities_agree_cex : ¬ capabilities_agree_full := by
   intro h
-  have := h [some polCaps] aclCaps { path := bs "foo/", op := .read } readI (by rfl) (by decide) (by decide)
+  have := h 0 [some polCaps] aclCaps { path := bs "foo/", op := .read } readI (by rfl) (by decide) (by decide)
     (by decide) (by decide)
   exact absurd this (by decide)
 
@@ -428,19 +492,19 @@ def docRules : List SrcRule := [
   { path := bs "secret/restricted", caps := ["create"],
     allowed := some [("foo", []), ("bar", [.str "zip", .str "zap"])] }]
 
-def docPolicy : Policy := match parsePolicy "doc" docRules with | .ok p => p | .error _ => { name := "", paths := [] }
+def docPolicy : Policy := match parsePolicy 0 "doc" docRules with | .ok p => p | .error _ => { name := "", paths := [] }
 
-def docACL : ACL := match newACL [some docPolicy] with | .ok a => a | .error _ => {}
+def docACL : ACL := match newACL 0 [some docPolicy] with | .ok a => a | .error _ => {}
 
-example : newACL [some docPolicy] = .ok docACL := by rfl
-example : wfRules (rulesOf [some docPolicy]) = true := by decide
+example : newACL 0 [some docPolicy] = .ok docACL := by rfl
+example : wfRules (rulesOf 0 [some docPolicy]) = true := by decide
 example : hasRoot [some docPolicy] = false := by decide
 /-- "Even though we allowed secret/*, this line explicitly denies secret/super-secret" (exact beats glob, deny) -/
 example : (allowOperation docACL { path := bs "secret/super-secret", op := .read } false).allowed = false := by decide
-example : hasExact (rulesOf [some docPolicy]) (bs "secret/super-secret") = true := by decide
+example : hasExact (rulesOf 0 [some docPolicy]) (bs "secret/super-secret") = true := by decide
 example : (allowOperation docACL { path := bs "secret/anything", op := .update } false).allowed = true := by decide
 /-- default deny applies to a path nothing matches -/
-example : ∀ r ∈ rulesOf [some docPolicy], stanzaApplies (bs "sys/mounts") .read r = false := by decide
+example : ∀ r ∈ rulesOf 0 [some docPolicy], stanzaApplies (bs "sys/mounts") .read r = false := by decide
 example : (allowOperation docACL { path := bs "sys/mounts", op := .read } false).allowed = false := by decide
 /-- the exact stanza `secret/foo = [read]` hides the glob's `update` -/
 example : (allowOperation docACL { path := bs "secret/foo", op := .update } false).allowed = false := by decide
@@ -457,12 +521,12 @@ def permsOne : Perms := { caps := 4, maxTTL := 10, allowed := [("k", [.str "a"])
 def permsTwo : Perms := { caps := 8, maxTTL := 5, allowed := [("k", [.str "b"])] }
 def polOne : Policy := { name := "one", paths := [{ path := bs "x", isPrefix := false, hasSW := false, perms := permsOne }] }
 def polTwo : Policy := { name := "two", paths := [{ path := bs "x", isPrefix := false, hasSW := false, perms := permsTwo }] }
-example : wfRules (rulesOf [some polOne, some polTwo]) = true := by decide
-example : (∃ a, newACL [some polOne, some polTwo] = .ok a) ∧ ∃ a, newACL [some polTwo, some polOne] = .ok a :=
+example : wfRules (rulesOf 0 [some polOne, some polTwo]) = true := by decide
+example : (∃ a, newACL 0 [some polOne, some polTwo] = .ok a) ∧ ∃ a, newACL 0 [some polTwo, some polOne] = .ok a :=
   ⟨⟨_, rfl⟩, ⟨_, rfl⟩⟩
-example : specAllow [some polOne, some polTwo] { path := bs "x", op := .update, data := [("k", .str "a")], wrapTTL := some 5 } false
+example : specAllow 0 [some polOne, some polTwo] { path := bs "x", op := .update, data := [("k", .str "a")], wrapTTL := some 5 } false
     = { allowed := true } := by decide
-example : (specAllow [some polOne, some polTwo] { path := bs "x", op := .update, data := [("k", .str "a")], wrapTTL := some 6 }
+example : (specAllow 0 [some polOne, some polTwo] { path := bs "x", op := .update, data := [("k", .str "a")], wrapTTL := some 6 }
     false).allowed = false := by decide
 
 end C03
